@@ -1,6 +1,19 @@
 """Per-property manifest entries. Only properties with a working check appear in CHECKS."""
 
 CHECKS = {
+    "C01": {
+        "level": "exploration",
+        "technique": "exhaustive token-string sweep + hypothesis documents; parse-tree-to-source accounting round trip, by-construction expected output, CPU budget",
+        "text": ("(a) every concatenation of <=4 (quick) / <=5 (thorough) tokens of a 27-token directive alphabet is lexed: "
+                 "the lexer must return a tree or raise Syntax/CompileException, the tree must account for every source "
+                 "character at the reported positions (vf.gen.account), and text-only trees must render to their Text "
+                 "contents; (b) hypothesis documents assembled from (source, expected output) segments - arbitrary Unicode "
+                 "text, %% lines, backslash-newline, ## lines, <%doc>, <%text>, stray % # $ < \\, simple directives - at every "
+                 "placement class must render to the by-construction expectation; (c) ~20k-170k pumped families p+u*n+s "
+                 "(<=256 chars) must each lex within 2 s CPU. The bounded sweep is exhaustive; beyond it the search is sampled."),
+        "note": ("Time bound is an empirical CPU budget, not a complexity proof. Lone-CR lines are exempt from one "
+                 "sub-predicate (see assumptions). Trusted: the accounting predicates in vf/gen/account.py, CPython re."),
+    },
     "C10": {
         "level": "exploration",
         "technique": "exhaustive enumeration + hypothesis; round trip through inverse functions",
